@@ -60,7 +60,7 @@ def lean_sources():
     return out
 
 
-def proof_obligations(pid):
+def proof_obligations(pid, tier='quick'):
     """Build CB.Props.<pid>, audit axioms of every theorem in it. Returns dict."""
     res = dict(obligations=0, discharged=0, theorems=[], failed=[], build_ok=False, log='', partial=[])
     props = os.path.join(LEAN, 'CB', 'Props', pid + '.lean')
@@ -98,6 +98,13 @@ def proof_obligations(pid):
                 axioms[m.group(1)] = []
             if rc2 != 0:
                 res['log'] += '\n[audit] ' + out2[-2000:]
+            if tier == 'thorough':
+                # independent re-check of the compiled property module by the toolchain's kernel re-checker
+                rc3, out3 = sh(['lake', 'env', 'leanchecker', f'CB.Props.{pid}'], LEAN)
+                res['leanchecker'] = dict(cmd=f'lake env leanchecker CB.Props.{pid}', rc=rc3, out=out3[-500:])
+                if rc3 != 0:
+                    res['build_ok'] = False
+                    res['log'] += '\n[leanchecker] ' + out3[-2000:]
     for n in full:
         ax = axioms.get(n)
         ok = res['build_ok'] and ax is not None and not bad and all(
@@ -230,7 +237,7 @@ def main():
     gmod = importlib.import_module('gen.' + pid.lower())
 
     log(f'{pid} tier={tier} seed={seed}: proof obligations')
-    po = proof_obligations(pid)
+    po = proof_obligations(pid, tier)
     log(f"obligations {po['discharged']}/{po['obligations']} build_ok={po['build_ok']}")
     model_bin_ok = os.path.exists(model_cmd()[0])
     if not po['build_ok']:
@@ -336,10 +343,11 @@ def main():
     os.makedirs(os.path.join(VERIF, 'replays'), exist_ok=True)
     msgs = []
     if viol:
-        viol.sort(key=lambda v: (len(v['line']), v['line']))
+        # prefer a replay on which the property's own specification (L0) is contradicted over a line where only the limb model (L1) differs
+        viol.sort(key=lambda v: (0 if 'spec' in v else 1, len(v['line']), v['line']))
         rpath = os.path.join(VERIF, 'replays', f'{pid}-{tier}-{seed}.json')
         json.dump(dict(property=pid, violation=True, kind='implementation differs from the proved model',
-                       line=viol[0]['line'], impl=viol[0]['impl'], model=viol[0]['model'], profile=viol[0]['profile'],
+                       line=viol[0]['line'], impl=viol[0]['impl'], model=viol[0]['model'], spec=viol[0].get('spec'), profile=viol[0]['profile'],
                        others=viol[1:25], total=len(viol), seed=seed, tier=tier,
                        broken_obligations=po['failed'],
                        replay_cmd=f'./check {pid} --replay {rpath}'), open(rpath, 'w'), indent=1)
@@ -375,7 +383,7 @@ def main():
             trusted_base=['Lean 4 kernel', 'axioms: ' + ', '.join(sorted({a for t in po['theorems'] for a in (t['axioms'] or [])})),
                           'hand-written model CB/Model/*.lean tied to /repo by this run\'s correspondence (impl vs model on the op lines below)',
                           'harness canonical printing, tools/runner.py, tools/extract.py, rustc/LLVM, external crates (subtle, der, rlp, serdect, hybrid-array, rand_core)'],
-            theorems=po['theorems'], partial_theorems=po['partial'],
+            theorems=po['theorems'], partial_theorems=po['partial'], leanchecker=po.get('leanchecker'),
             evaluations=len(lines) * 2, distinct_nontrivial=distinct,
             rule=getattr(gmod, 'RULE', 'operation lines from corpus + directed families + seeded structured random; each line executed on the real crate in two build profiles (release, dbgchk) and on the Lean model; distinct = distinct lines, non-trivial = some operand token longer than 2 hex digits'),
             samples=samples, ops_histogram=ops_hist, impl_output_classes=out_hist,
